@@ -930,6 +930,8 @@ def replay_predictor(ck, rep, j, dev, batch, stride_pdf, counters):
         model = (bytes(r["o"]), r["e"], r["pc"], r["trig"])
         if kind == "png":
             seen_types.update((i == 0, t) for i, t in enumerate(types))
+            if c * b > 8 and (c * b) % 8 and b in SUPPORTED_BITS["png"] and any(t in (1, 3, 4) for t in types):
+                seen_types.add("bpp-ceiling")
         got, exc = call_predictor(kind, c, k, b, enc, pred=10 + (types[0] if kind == "png" else 0))
         judge_predictor(rep, dev, kind, c, k, b, types, expect, got, exc, model, "called directly",
                         {"part": "predictor", "kind": kind, "colors": c, "columns": k, "bits": b, "enc": enc,
@@ -948,7 +950,7 @@ def replay_predictor(ck, rep, j, dev, batch, stride_pdf, counters):
                        "filtered": enc, "decoded": got, "exception": excname(exc) if exc else None,
                        "as_coded_model": {"out": r["o"], "err": r["e"], "deviations_touched": r["trig"]}})
     batch.run(on_result)
-    need = {(first, t) for first in (True, False) for t in range(5)}
+    need = {(first, t) for first in (True, False) for t in range(5)} | {"bpp-ceiling"}
     if not need <= seen_types:
         raise MachineryError("Predictor enumeration misses row filter types %s" % sorted(need - seen_types))
     ck.replayed += n
@@ -1093,18 +1095,17 @@ def record_traces(ck, rep, dev, rng, chain_traces):
             rl.append({"enc": list(enc), "ev": ev, "total": len(data), "origin": origin})
         # ---- predictors at real scale (rows of up to 400 bytes)
         d = data[:4800]
-        geoms = [(1, 1 + (idx * 7) % 97, 8), (3, 1 + (idx * 5) % 61, 8), (4, 1 + idx % 23, 8), (2, 17, 8), (1, 8 * (1 + idx % 9), 1)]
+        # (colors, columns, bits): bits per pixel 8, 24, 32, 16, 1 - and 12, 9, 20 (above 8, not a multiple of 8: the
+        # bytes-per-pixel ceiling), 5
+        geoms = [(1, 1 + (idx * 7) % 97, 8), (3, 1 + (idx * 5) % 61, 8), (4, 1 + idx % 23, 8), (2, 17, 8), (1, 8 * (1 + idx % 9), 1),
+                 (12, 1 + idx % 29, 1), (9, 1 + (idx * 3) % 17, 1), (20, 1 + idx % 11, 1), (5, 3 + idx % 40, 1)]
         for gi, (c, k, b) in enumerate(geoms):
             rlen = cd.row_length(c, k, b)
             rows = min(len(d) // rlen, 24)
             if rows == 0:
                 continue
             x = d[:rows * rlen]
-            first = (0, 1) if (c > 1 or b < 8) else (0, 1, 2, 3, 4)
-            later = (0, 2) if b < 8 else (0, 1, 2, 3, 4)
-            types = [first[(idx + gi) % len(first)]] + [later[(idx + gi + r_) % len(later)] for r_ in range(1, rows)]
-            if b < 8:
-                types[0] = 0
+            types = [(idx + gi + 3 * r_) % 5 for r_ in range(rows)]
             for kind in (("png", "tiff") if b == 8 else ("png",)):
                 enc = cd.png_predict(x, c, k, b, types) if kind == "png" else cd.tiff_predict(x, c, k)
                 if kind == "png":
@@ -1163,7 +1164,7 @@ def record_traces(ck, rep, dev, rng, chain_traces):
     pats = ((0, 1, 2, 3, 4), (4, 3, 2, 1, 0)) if ck.tier == "quick" else tuple(tuple((t0 + q * r_) % 5 for r_ in range(5))
                                                                                 for t0 in range(5) for q in (0, 1, 2))
     for b in (1, 2, 4, 16, 8):
-        for c in (1, 2, 3, 4):
+        for c in ((1, 2, 3, 4, 9, 13, 20) if b == 1 else (1, 2, 3, 4, 5) if b in (2, 4) else (1, 2, 3, 4)):
             for k in cols:
                 for pi, types in enumerate(pats):
                     rlen = cd.row_length(c, k, b)
@@ -1178,7 +1179,8 @@ def record_traces(ck, rep, dev, rng, chain_traces):
                         batch.run(on_pred)
     batch.run(on_pred)
     ck.extra["png_predictor_through_pdf"] = {"streams": npdf[0], "declared_unsupported_by_the_code": cnt["declared_unsupported"],
-                                             "depths": [1, 2, 4, 8, 16], "colors": [1, 2, 3, 4], "columns": list(cols)}
+                                             "depths": [1, 2, 4, 8, 16], "colors": [1, 2, 3, 4, "9, 13, 20 at 1 bit", "5 at 2 and 4 bits"],
+                                             "columns": list(cols)}
     # ---- PNG predictor inputs that touch the known deviations, at real scale (classified, not traced)
     for (c, k, b, t0) in ((3, 40, 8, 2), (3, 40, 8, 3), (4, 25, 8, 4), (1, 10, 1, 0), (1, 16, 1, 1)):
         rlen = cd.row_length(c, k, b)
